@@ -44,12 +44,25 @@ Theorem C15_half_window_1d_iff : forall v : value,
 Proof. exact half_window_1d_iff. Qed.
 Print Assumptions C15_half_window_1d_iff.
 
-(* _check_scalar_variable(allow_zero=True, dtype=int) (poly_order) *)
+(* _check_half_window, 1-D and 2-D (pairs): whatever is accepted is a positive integer (pair) *)
+Theorem C15_half_window_accepts_only_valid : forall (td : bool) (v : value),
+  regular v = true -> run_guard (GHalfWindow false td) v = None -> must_reject DHw td v = false.
+Proof. exact half_window_accepts_only_valid. Qed.
+Print Assumptions C15_half_window_accepts_only_valid.
+
+(* _check_scalar_variable(allow_zero=True, dtype=int) (poly_order): castable and NOT negative -- the
+   float pre-check rejects the fractions in (-1, 0) that the integer cast would truncate to 0 *)
 Theorem C15_poly_order_iff : forall v : value,
   run_guard (GCSV true false DtInt) v = None <->
-  exists s z, scalar_like v s /\ cast DtInt s = Ok (Int z) /\ 0 <= z.
+  exists s z, scalar_like v s /\ cast DtInt s = Ok (Int z) /\ lt_sc s (zc 0) = false.
 Proof. exact csv_int_allow_zero_iff. Qed.
 Print Assumptions C15_poly_order_iff.
+
+(* integer parameters: +-inf is a ValueError (np.isinf test before the cast) *)
+Theorem C15_int_param_inf_is_value_error : forall (az td : bool) (s : sc),
+  is_inf s = true -> run_guard (GCSV az td DtInt) (Sc s) = Some VErr.
+Proof. exact int_param_inf_is_value_error. Qed.
+Print Assumptions C15_int_param_inf_is_value_error.
 
 (* the scalar validators accept nothing but None / scalar-like values in 1-D *)
 Theorem C15_scalar_validators_reject_arrays : forall (az : bool) (d : dt) (v : value),
@@ -75,12 +88,15 @@ Proof. exact harmless. Qed.
 Print Assumptions C15_no_other_exception.
 
 (* ROUTING.  For ANY table that passes the reflective check: every entry inside the claim, every value
-   the statement lists as outside the documented domain (must_reject; any z, q, list), is rejected with
+   the statement lists as outside the documented domain (must_reject: lam <= 0, p/quantile outside (0,1),
+   eta outside [0,1], diff_order < 1, poly_order < 0, num_knots < 2, spline_degree < 0 -- strict
+   comparisons on the value itself, fractions and +-inf included --, nan / non-positive / non-integer
+   half windows in 1-D and 2-D, wrong-length arrays; any z, q, list), is rejected with
    ValueError/TypeError by the guards reached BEFORE the first other use of the parameter.
-   PARTIAL with respect to the statement: hypothesis `regular` (no empty array, no +-inf / |x| >= 2^63,
-   see C15_int_cast_overflow_refuted), 2-D half windows only up to truncation
-   (C15_half_window_2d_refuted), optimizers' forwarded parameters and classification half windows are
-   outside the table (expected = None). *)
+   PARTIAL with respect to the statement only because: hypothesis `regular` (no empty array; finite
+   elements below 2^63 in magnitude -- larger finite values are inside the documented domains anyway,
+   see C15_huge_finite_overflow_example), and the optimizers' forwarded parameters and the half windows
+   of non-morphological/smoothing methods are outside the table (expected = None). *)
 Theorem C15_routing_partial : forall t : list entry,
   routing_ok t = true ->
   forall e d, In e t -> expected e = Some d ->
@@ -104,19 +120,18 @@ Example C15_routing_hypotheses_nonvacuous :
   regular (Sc (Int 0)) = true /\ must_reject DPos false (Sc (Int 0)) = true.
 Proof. exact regular_bad_value. Qed.
 
-(* what the unchanged code does NOT reject (witnesses on the model; replayed on the implementation) *)
-Theorem C15_half_window_2d_refuted :
-  exists v, must_reject DHw true v = true /\ regular v = true /\ run_guard (GHalfWindow false true) v = None.
-Proof. exact half_window_2d_noninteger_accepted. Qed.
-Print Assumptions C15_half_window_2d_refuted.
+Example C15_routing_hypotheses_inf_nonvacuous :
+  regular (Sc NegInf) = true /\ must_reject (DGe 0) false (Sc NegInf) = true.
+Proof. exact regular_bad_inf. Qed.
 
-Theorem C15_int_cast_overflow_refuted :
-  exists v, must_reject (DGe 0) false v = true /\ run_guard (GCSV true false DtInt) v = Some OErr.
-Proof. exact int_cast_overflow. Qed.
-Print Assumptions C15_int_cast_overflow_refuted.
+(* documented remainder: a finite value >= 2^63 (inside the domains) still overflows the integer cast *)
+Theorem C15_huge_finite_overflow_example : run_guard (GCSV true false DtInt) (Sc (Int (2 ^ 63))) = Some OErr.
+Proof. exact huge_finite_overflow. Qed.
 
-Theorem C15_negative_fraction_refuted :
-  exists v, regular v = true /\ lt_sc (Frac (-1 # 2)) (zc 0) = true /\ v = Sc (Frac (-1 # 2)) /\
-            run_guard (GCSV true false DtInt) v = None.
-Proof. exact negative_fraction_truncated. Qed.
-Print Assumptions C15_negative_fraction_refuted.
+(* the witnesses of the three repaired defects are rejected by the current code *)
+Theorem C15_former_witnesses_rejected :
+  run_guard (GHalfWindow false true) (Sc (Frac (5 # 2))) = Some TErr /\
+  run_guard (GCSV true false DtInt) (Sc NegInf) = Some VErr /\
+  run_guard (GCSV true false DtInt) (Sc (Frac (-1 # 2))) = Some VErr.
+Proof. exact former_witnesses_rejected. Qed.
+Print Assumptions C15_former_witnesses_rejected.
